@@ -33,6 +33,22 @@ def lib_line(wd, i, r, d):
     return line
 
 
+def xml_cases():
+    def cps(t):
+        return [ord(ch) for ch in t]
+    out = []
+    for msg in ("enc & log", "&", "R&D at 100%", "a &amp; b", "x && y"):
+        prog = {"lets": [], "prules": [], "rules": [{"n": "r1", "w": [], "lets": [], "b": [[
+            {"c": "gac", "q": [{"p": "key", "k": cps("nope")}], "all": True, "neg": False, "op": "exists", "on": False, "rhs": [], "msg": msg}]]}]}
+        out.append((prog, {"t": "map", "k": [cps("a")], "v": [{"t": "int", "v": 1}]}))
+    # a key with `&` in the reported path, numeric values only
+    prog = {"lets": [], "prules": [], "rules": [{"n": "r1", "w": [], "lets": [], "b": [[
+        {"c": "gac", "q": [{"p": "key", "k": cps("cpu&mem")}], "all": True, "neg": False, "op": "eq", "on": False,
+         "rhs": [{"r": "val", "v": {"t": "int", "v": 1}}]}]]}]}
+    out.append((prog, {"t": "map", "k": [cps("cpu&mem")], "v": [{"t": "int", "v": 2}]}))
+    return out
+
+
 def run(tier):
     res = Result("C07", tier, "model_checking")
     res.assumptions = ["a configuration only has to agree on what it shows (--show-summary fail shows only the FAIL set; -S none only the exit code)",
@@ -73,6 +89,18 @@ def run(tier):
                     i += 1
                     f.write(json.dumps(lib_line(wd, i, rules[0], data[0])) + "\n")
                     modes_seen["lib"] = modes_seen.get("lib", 0) + 1
+        # texts that XML output has to escape: failing checks whose custom message or key name holds
+        # `&`, in every structured format (well-formed output, same verdicts)
+        for prog, doc in xml_cases():
+            lines_ = json.dumps({"prog": prog, "doc": doc})
+            r_ = json.loads(gv(["render-many"], input=lines_).strip().split("\n")[0])
+            rules = [{"parse": "ok", "prog": prog, "text": r_["rules"]}]
+            data = [{"load": "ok", "doc": doc, "text": r_["data"]}]
+            for mode in clitrace.MODES:
+                if mode["fmt"] in ("junit", "sjson", "sarif", "syaml"):
+                    i += 1
+                    f.write(json.dumps(clitrace.run_job(wd, i, rules, data, [], mode, "files")) + "\n")
+                    modes_seen["xml:" + mode["fmt"]] = modes_seen.get("xml:" + mode["fmt"], 0) + 1
     wd.close()
     lines, bad = clitrace.judge(res, tr, i)
     res.add("evaluations", i)
